@@ -29,3 +29,16 @@ Theorem C19_frame_check_sound_partial before op signer params after decs :
     role = "signer"%string \/ exception_ok op role comp = true.
 Proof. exact (c19_step_sound before op signer params after decs). Qed.
 Print Assumptions C19_frame_check_sound_partial.
+
+(* the third exception of the property: a selection is removed by somebody else only when the selector
+   fell below its reporter's minimum and the reporter is over the selector cap; nothing else changes *)
+Theorem C19_remove_selector_only_if sels sel stake mn nsel cap sels' :
+  remove_selector sels sel stake mn nsel cap = Some sels' ->
+  stake < mn /\ cap < nsel /\ (forall e, In e sels -> fst e <> sel -> In e sels') /\ (forall e, In e sels' -> In e sels /\ fst e <> sel).
+Proof. exact (remove_selector_only_if sels sel stake mn nsel cap sels'). Qed.
+Print Assumptions C19_remove_selector_only_if.
+
+Theorem C19_remove_selector_rejected sels sel stake mn nsel cap :
+  mn <= stake \/ nsel <= cap -> remove_selector sels sel stake mn nsel cap = None.
+Proof. exact (remove_selector_rejected sels sel stake mn nsel cap). Qed.
+Print Assumptions C19_remove_selector_rejected.
